@@ -22,13 +22,24 @@ def body(r):
               for i in range(n_ns)]
     worlds += [swarm.build_world(r.seed, 90000 + i, "ins", ["ins", "res"], rr, p_fault=1.0, max_cycles=5)
                for i in range(n_ins)]
+    # targeted: a termination signal that arrives while a file-system event is in progress, i.e. (mostly) while a
+    # periodic checkpoint or a weights save is being written: the handler then checkpoints inside the checkpoint
+    for i in range(16 if r.tier == "quick" else 400):
+        sampler = "ns" if i % 4 else "ins"
+        w = swarm.build_world(r.seed, 95000 + i, sampler, [sampler, "res"], rr, p_fault=0.0, stalls=False)
+        w["plan"] = [{"inc": 0, "kind": "signal_fs", "signum": rr.choice([15, 15, 2, 14]),
+                      "event": rr.randrange(2, 70) if sampler == "ns" else rr.randrange(2, 30)}]
+        w["downtimes"] = [rr.choice([1.0, 60.0, 3600.0])]
+        w["max_incarnations"] = 3
+        worlds.append(w)
     swarm.run_swarm(r, PROP, worlds, judges_=JUDGES, need_fault=True)
     return r.finish(
         minimise=swarm.make_minimiser(PROP, JUDGES, None),
         rule=("seeded swarm of kill/resume chains of length 1-5 for both samplers (kills at arbitrary likelihood "
               "calls and fs events incl. torn writes; iteration- and time-triggered checkpoints, uninformed and "
               "flow phase, populated or empty pool, before/after training, with and without saved density "
-              "tables; downtime 1 s - 1e5 s on the virtual clock). RESUME-EQ: digest of the sampler when each "
+              "tables; downtime 1 s - 1e5 s on the virtual clock; plus targeted worlds in which a termination signal "
+              "arrives while a file-system event of a checkpoint or weights save is in progress). RESUME-EQ: digest of the sampler when each "
               "checkpoint was written vs digest after FlowSampler(resume=True) in a fresh process, field by field "
               "(iteration, live/dead points, evidence state, insertion indices, history, pools, training counters, "
               "reparameterisation state, counters, timings). ACCT-EVALS: counter = value resumed from + points "
